@@ -181,10 +181,31 @@ fn big_still(rng: &mut Rng, k: usize) -> Still {
     Still { img, interlace: k % 2 == 1, filters: if k % 2 == 0 { Filters::Uniform(0) } else { Filters::Random }, deflater, split: if k % 4 == 0 { Split::One } else { Split::Fixed(40000) } }
 }
 
+/// (w, h, colour, depth, interlace): raw size h * (1 + row bytes) within one row above a power-of-two buffer size, and tiny
+/// 1-bit Adam7 images of height 1
+pub fn near_boundary_shapes(rng: &mut Rng, n: usize) -> Vec<(u32, u32, u8, u8, bool)> {
+    let mut out = vec![];
+    for k in 0..n {
+        if k % 5 == 4 {
+            out.push((rng.range(3, 24) as u32, 1, 0, 1, true));
+            continue;
+        }
+        let (color, depth) = *rng.pick(&[(0u8, 8u8), (0, 8), (6, 8), (2, 16), (0, 1), (3, 4), (4, 8)]);
+        let bits = crate::refpng::samples(color) * depth as usize;
+        let boundary = *rng.pick(&[32usize << 10, 32 << 10, 64 << 10, 128 << 10, 128 << 10, 256 << 10]);
+        let rowlen = rng.usize(20, 580);            // 1 + row bytes
+        let w = (((rowlen - 1) * 8) / bits).max(1) as u32;
+        let rowlen = 1 + (w as usize * bits + 7) / 8;
+        let h = (boundary / rowlen + 1) as u32;     // raw size in (boundary, boundary + rowlen]
+        out.push((w, h, color, depth, false));
+    }
+    out
+}
+
 pub fn run(ctx: &mut Ctx) {
     ctx.rep.rule = "reference-built still images: 15 colour/depth pairs x {none, Adam7} x widths/heights from {1..17, 31..33, 63..65, random <= max} \
         x per-row filter assignment (uniform, cycling so that every type occurs on a first row, random) x deflate producer (stored blocks of several sizes, fdeflate, flate2 levels 0-9) \
-        x IDAT split (one, random cuts incl. empty chunks, every byte, fixed sizes around 32 KiB); plus large (~400 KiB) long-period images; \
+        x IDAT split (one, random cuts incl. empty chunks, every byte, fixed sizes around 32 KiB); plus large (~400 KiB) long-period images; plus highly compressible images whose raw size is within one row above 32/64/128/256 KiB and tiny 1-bit Adam7 images (the tail of the image leaves the inflater only when the data sequence is finished); \
         thorough adds all (w,h) <= 9x9 x 15 pairs x 2 interlace x 5 uniform filters; \
         non-trivial = at least 2 rows and at least one filter byte != 0; distinct = hash of the file bytes".into();
     let mut rng = ctx.rng.fork(1);
@@ -198,6 +219,20 @@ pub fn run(ctx: &mut Ctx) {
     for k in 0..ctx.n(2, 8) {
         let mut r = rng.fork(1_000_000 + k as u64);
         cases.push((big_still(&mut r, k), r.next()));
+    }
+    // highly compressible images whose raw size lies just above 32 / 64 / 128 / 256 KiB: with the whole file in one piece the
+    // inflater has taken in the last compressed bytes while its output buffer is exactly full, and the tail of the image only
+    // comes out while the data sequence is finished (`finish_compressed_chunks`); tiny Adam7 images whose interlaced size
+    // exceeds the expected-output estimate take the same path (seeded changes C01_5, C03_6, C04_4)
+    for (k, (w, h, color, depth, il)) in near_boundary_shapes(&mut rng, ctx.n(10, 40)).into_iter().enumerate() {
+        let mut r = rng.fork(2_000_000 + k as u64);
+        let mut img = Img::random(&mut r, color, depth, w, h);
+        let rb = img.row_bytes();
+        let keep = if k % 3 == 0 { 0 } else { r.usize(0, 4).min(h as usize) };
+        for b in img.pixels[keep * rb..].iter_mut() {
+            *b = 0;
+        }
+        cases.push((Still { img, interlace: il, filters: Filters::Uniform(0), deflater: Deflater::Level(*r.pick(&[1u32, 6, 9])), split: Split::One }, r.next()));
     }
     if !ctx.quick() {
         for &(color, depth) in LEGAL_PAIRS.iter() {
